@@ -12,7 +12,10 @@ EXPLANATION = (
     "Attribute expression that resolves - through the module's imports and aliases - to one of the running interpreter's "
     "platform tables (errno.*, signal.*, socket constants and enums, os.strerror/os.name/os.uname, sys.platform/"
     "sys.byteorder, platform.*, locale.*) is reported with the function that contains it. Type annotations are not uses. "
-    "Findings are keyed by (module, function, API): a new use elsewhere is a new violation. An embedded fixture must be "
+    "Each use is attributed to the registry decoders that can reach it (reference graph over functions, result classes, "
+    "their methods and module constants); a finding is (decoder, host table), so moving a use into a helper changes "
+    "nothing while a decoder that newly depends on a host table is a new violation. Uses no decoder reaches are keyed by "
+    "their function. An embedded fixture must be "
     "flagged on every run."
 )
 
@@ -37,6 +40,12 @@ def _os_constant(dn: str) -> bool:
               "os.cpu_count", "sys.maxsize", "sys.getfilesystemencoding", "sys.getdefaultencoding"):
         return True
     return False
+
+
+def _table(api: str) -> str:
+    """The host table an expression reads: `errno.errorcode.get` and `errno.errorcode` are the same table."""
+    parts = api.split(".")
+    return ".".join(parts[:2])
 
 
 def _annotation_nodes(tree) -> set:
@@ -67,6 +76,10 @@ def scan_module(repo: Repo, mod: ModuleInfo):
             if id(child) in skip or isinstance(child, (ast.Import, ast.ImportFrom)):
                 continue
             sc = scope
+            if scope == "<module>" and isinstance(child, (ast.Assign, ast.AnnAssign)):
+                tg = child.targets[0] if isinstance(child, ast.Assign) else child.target
+                if isinstance(tg, ast.Name):
+                    sc = f"={tg.id}"            # the value of a module constant
             if isinstance(child, (ast.FunctionDef, ast.AsyncFunctionDef)):
                 sc = f"{scope}.{child.name}" if scope != "<module>" else child.name
             elif isinstance(child, ast.ClassDef):
@@ -88,31 +101,134 @@ def scan_module(repo: Repo, mod: ModuleInfo):
     yield from visit(mod.tree, "<module>")
 
 
+def _unit_of(mod: ModuleInfo, scope: str) -> str:
+    """Graph node of the function / method / class / module constant a use is written in."""
+    if scope.startswith("="):
+        return f"{mod.name}:{scope[1:]}"
+    parts = scope.split(".")
+    if parts[0] in mod.classes:
+        return f"{mod.name}:{'.'.join(parts[:2])}" if len(parts) > 1 and parts[1] in mod.classes[parts[0]].methods \
+            else f"{mod.name}:{parts[0]}"
+    return f"{mod.name}:{parts[0]}"
+
+
+def reference_graph(repo: Repo):
+    """node -> nodes it mentions.  Nodes: `mod:function`, `mod:Class` (-> its methods), `mod:Class.method`, `mod:CONSTANT`."""
+    g = {}
+
+    def refs(mod, node):
+        out = set()
+        for n in ast.walk(node):
+            if isinstance(n, (ast.Name, ast.Attribute)) and isinstance(getattr(n, "ctx", None), ast.Load):
+                dn = repo.dotted(mod, n)
+                while dn and dn.startswith("pykdebugparser."):
+                    f = repo.lookup(dn)
+                    if f:
+                        kind, m2, obj = f
+                        nm = obj.name if kind in ("func", "class") else dn.rsplit(".", 1)[1]
+                        out.add(f"{m2.name}:{nm}")
+                        break
+                    dn = dn.rpartition(".")[0]
+        return out
+
+    for mod in repo.modules.values():
+        for name, fn in mod.functions.items():
+            g[f"{mod.name}:{name}"] = refs(mod, fn)
+        for cname, ci in mod.classes.items():
+            members = {f"{mod.name}:{cname}.{m}" for m in ci.methods}
+            body_refs = set()
+            for st in ci.node.body:
+                if not isinstance(st, (ast.FunctionDef, ast.AsyncFunctionDef)):
+                    body_refs |= refs(mod, st)
+            for b in ci.node.bases:
+                body_refs |= refs(mod, b)
+            g[f"{mod.name}:{cname}"] = members | body_refs
+            for m, fn in ci.methods.items():
+                g[f"{mod.name}:{cname}.{m}"] = refs(mod, fn)
+        for cname, node in mod.constants.items():
+            if cname == "handlers":
+                continue            # the registry itself mentions every decoder
+            g.setdefault(f"{mod.name}:{cname}", refs(mod, node))
+    return g
+
+
+def decoder_reach(repo: Repo):
+    """registry key -> every node its decoder can mention, directly or through helpers, result classes and their methods."""
+    from .. import registry
+    g = reference_graph(repo)
+    out = {}
+    for fam, entries in registry.load_all(repo).items():
+        for e in entries:
+            start = {f"{e.module.name}:{e.func_name}"}
+            for x in list(e.bound_pos) + [v for _, v in e.bound_kw]:
+                for n in ast.walk(x):
+                    if isinstance(n, (ast.Name, ast.Attribute)):
+                        dn = repo.dotted(repo.module(f"trace_handlers.{fam}"), n)
+                        f = repo.lookup(dn) if dn else None
+                        if f and f[0] in ("func", "class"):
+                            start.add(f"{f[1].name}:{f[2].name}")
+            seen = set()
+            todo = list(start)
+            while todo:
+                cur = todo.pop()
+                if cur in seen:
+                    continue
+                seen.add(cur)
+                todo.extend(g.get(cur, ()))
+            out.setdefault(e.key, set()).update(seen)
+    return out, g
+
+
+WITNESS = {"errno.errorcode": "errno 35 renders EDEADLOCK on Linux, EAGAIN on Darwin",
+           "socket.SOL_SOCKET": "SOL_SOCKET is 1 on Linux, 0xffff on Darwin: level 0xffff is not recognised",
+           "signal.Signals": "signal 10 is SIGUSR1 on Linux, SIGBUS on Darwin",
+           "socket.AddressFamily": "family 30 is AF_INET6 on Darwin, AF_TIPC on Linux",
+           "socket.SocketKind": "socket types 1..5 coincide but the enum is the host's"}
+
+
 def check(repo: Repo, run: Run) -> None:
     n_units = 0
     total = 0
+    reach, graph = decoder_reach(repo)
+    run.floor("R1", "registry decoders whose reachable code is known", len(reach), 400)
+    by_node = {}
+    for key, nodes in reach.items():
+        for nd in nodes:
+            by_node.setdefault(nd, set()).add(key)
     for mod in repo.modules.values():
         short = mod.name[len("pykdebugparser."):] if mod.name.startswith("pykdebugparser.") else mod.name
         if not short.startswith(SCOPE_MODULES):
             continue
         n_units += len(mod.functions) + sum(len(c.methods) for c in mod.classes.values())
+        # (instance, table) -> where.  An instance is a decoder (registry key) whose output can depend on the table, or
+        # "@<function>" for code that no decoder reaches (the facade, the dispatcher, the command line).
         uses = {}
+        n_sites = 0
         for scope, api, ln in scan_module(repo, mod):
-            uses.setdefault((scope, api), []).append(ln)
-        for (scope, api), lines in sorted(uses.items()):
+            n_sites += 1
+            node = _unit_of(mod, scope)
+            insts = by_node.get(node)
+            if not insts and scope.startswith("="):
+                # a module constant no decoder reaches: it matters only through the other code that mentions it
+                insts = {"@" + u.split(":", 1)[1] for u, outs in graph.items() if node in outs}
+                if not insts:
+                    continue
+            insts = insts or {"@" + scope}
+            for inst in insts:
+                uses.setdefault((inst, _table(api)), []).append((scope.lstrip("="), ln))
+        for (inst, api), sites in sorted(uses.items()):
             total += 1
-            run.ob("R1", mod.name, scope, api, False,
-                   f"{scope} takes {api} from the running interpreter's platform tables (lines {lines[:6]}): the names shown "
-                   f"are the host's, not Darwin's",
-                   facts={"lines": lines}, line=lines[0],
-                   witness={"errno.errorcode": "errno 35 renders EDEADLOCK on Linux, EAGAIN on Darwin",
-                            "socket.SOL_SOCKET": "SOL_SOCKET is 1 on Linux, 0xffff on Darwin: level 0xffff is not recognised",
-                            "signal.Signals": "signal 10 is SIGUSR1 on Linux, SIGBUS on Darwin",
-                            "socket.AddressFamily": "family 30 is AF_INET6 on Darwin, AF_TIPC on Linux",
-                            "socket.SocketKind": "socket types 1..5 coincide but the enum is the host's"}.get(api))
+            scopes = sorted({sc for sc, _ in sites})
+            lines = sorted({ln for _, ln in sites})
+            who = f"the output of decoder {inst!r}" if not inst.startswith("@") else f"{inst[1:]}"
+            run.ob("R1", mod.name, inst, api, False,
+                   f"{who} depends on {api}, a table of the running interpreter's platform (read in {', '.join(scopes[:4])}, "
+                   f"lines {lines[:4]}): the names shown are the host's, not Darwin's",
+                   facts={"lines": lines, "functions": scopes}, line=lines[0], witness=WITNESS.get(api))
         # a module with no uses contributes one discharged obligation per module
-        run.ob("R1", mod.name, "<module>", "scanned", True, facts={"uses": len(uses)}, nontrivial=False)
-    run.analysed.update({"functions_scanned": n_units, "host_table_uses": total})
+        run.ob("R1", mod.name, "<module>", "scanned", True, facts={"use_sites": n_sites, "dependent_outputs": len(uses)},
+               nontrivial=False)
+    run.analysed.update({"functions_scanned": n_units, "host_dependent_outputs": total, "registry_decoders": len(reach)})
     run.floor("R1", "functions and methods scanned", n_units, 850)
     _canary(repo, run)
 
@@ -132,6 +248,6 @@ def _canary(repo: Repo, run: Run) -> None:
     tree = ast.parse(CANARY)
     mod = ModuleInfo("pykdebugparser.__canary18__", "<canary>", CANARY, tree)
     repo._index_module(mod)
-    got = {(s, a) for s, a, _ in scan_module(repo, mod)}
+    got = {(s, _table(a)) for s, a, _ in scan_module(repo, mod)}
     run.canary("R1", "aliased errno.errorcode and signal.Signals are flagged; annotation and inet_ntoa are not",
-               got == {("render", "errno.errorcode.get"), ("render", "signal.Signals")})
+               got == {("render", "errno.errorcode"), ("render", "signal.Signals")})
